@@ -165,13 +165,16 @@ PROPS = {
     "C02": {
         "level_text": "partial: kernel-checked theorems (exact reals) that zenith ∈ [0,180], azimuth ∈ "
                       "[0,360), zenith = 90 − elevation, apparent = true − refraction(true), and that the "
-                      "published refraction model is ≥ 0, < 0.6° and zero from 85° up on the whole range; "
-                      "about a model compared bit-for-bit with the implementation. The 0.03° agreement "
+                      "published refraction model is ≥ 0, < 0.6° and zero from 85° up on the whole range, "
+                      "and that substituting latitude ±89.8° beyond it moves the zenith by at most 0.2° "
+                      "(spherical triangle inequality); about a model compared bit-for-bit with the implementation. The 0.03° agreement "
                       "with an independent ephemeris is not a theorem (DESIGN §9).",
         "level_note": "Numerical agreement with an independent ephemeris is explored only by the "
                       "failing-input search (Astronomical-Almanac oracle, measured headroom 0.013°).",
-        "lean_modules": ["Astral.Props.C02"],
+        "lean_modules": ["Astral.Props.C02", "Astral.Props.C02Clamp"],
         "theorems": [
+            "Astral.C02Clamp.zenith_lipschitz_in_latitude", "Astral.C02Clamp.clamp_cost",
+            "Astral.C02Clamp.clamp_cost_model",
             "Astral.C02.zenithOfCos_range", "Astral.C02.azimuthRaw_range", "Astral.C02.normAzimuth_range",
             "Astral.C02.zenithAzimuthOf_range", "Astral.C02.sun_angle_ranges", "Astral.C02.elevation_def",
             "Astral.C02.apparent_is_true_minus_model", "Astral.C02.apparent_elevation",
